@@ -85,6 +85,35 @@ static int sm_search(sm_spec_t *sp, int maxdepth) {
     if (!complete) vc_exhaustive = 0;
     return 0;
 }
+/* Depth-bounded enumeration of histories WITHOUT merging states. The breadth-first search above merges two histories whose canonical keys are
+ * equal; that is sound for the fields the key contains, but a field the harness has never heard of (a lookup cache, a remembered position - hidden
+ * state a later version may add) makes such histories differ. From a seed history (a non-initial state) every sequence of <= depth further operations
+ * of the alphabet - reads included - is run, the last operation of each one with all oracles. */
+static int sm_hist_mode;      /* harnesses skip their own pre-operation reads in this mode: the operations alone decide the hidden state */
+static long sm_hist_runs;
+static void sm_hist_rec(sm_spec_t *sp, uint16_t *hist, int d, int left, long shard, long nshards, int top) {
+    static char key[VC_KEYMAX], ckey[4096];
+    for (int op = 0; op < sp->nops; op++) {
+        if (top && nshards > 1 && op % nshards != shard) continue;
+        if (vc_deadline_hit() || VC_ENOUGH_VIOLATIONS()) { vc_exhaustive = 0; return; }
+        char *k = key; k += sprintf(k, "%s", sp->prefix); for (int i = 0; i < d; i++) k += sprintf(k, "%d,", hist[i]); sprintf(k, "%d", op);
+        if (!vc_case(sp->label(op), key)) continue;
+        long v0 = vc_nviol - sm_soft;
+        int r = sp->transition(hist, d, op, ckey, 0);
+        vc_case_end();
+        if (r == 1) continue;
+        sm_trans++; sm_hist_runs++;
+        if (r == 0 && vc_nviol - sm_soft == v0 && left > 1) { hist[d] = (uint16_t)op; sm_hist_rec(sp, hist, d + 1, left - 1, shard, nshards, 0); }
+    }
+}
+static int sm_histories(sm_spec_t *sp, const uint16_t *seed, int nseed, int depth, long shard, long nshards) {
+    static uint16_t hist[4096]; memcpy(hist, seed, sizeof(uint16_t) * nseed);
+    sm_hist_mode = 1;
+    sm_hist_rec(sp, hist, nseed, depth, shard, nshards, 1);
+    vc_stat_add("states", sm_hist_runs); vc_stat_add("transitions", sm_trans); vc_stat_add("max_depth", nseed + depth); vc_stat_add("histories_without_merging", sm_hist_runs);
+    vc_stat_add("copies_verified", sm_copies_checked); vc_stat_add("inputs_scribbled", sm_scribbled);
+    return 0;
+}
 /* replay "o1,o2,...,on" (the last one is the checked op) */
 static int sm_replay(sm_spec_t *sp, const char *ops) {
     static uint16_t hist[4096]; int d = 0; const char *p = ops;
